@@ -97,7 +97,20 @@ def long_scripts(r, big):
         yield "long-random-%d" % ln, b"\x51" + G.rb(r, ln - 1)
 
 
-def run_via_outputs(ctx, cases, coins_of, family_prefix="out-path:"):
+def _tx_versions():
+    from . import build as B
+    base = [1, 2, 0x7100, 3, 0x00050003, 0x80000004, 0, 0xffffffff, 0x7fffffff]
+    try:
+        base += [L & 0xffffffff for L in B.new_literals() if L < (1 << 32)]
+    except Exception:
+        pass
+    return base
+
+
+TX_VERSIONS = _tx_versions()
+
+
+def run_via_outputs(ctx, cases, coins_of, family_prefix="out-path:", all_contexts=lambda fam: fam.startswith(("idiom:", "well-known:"))):
     """the same verdicts observed where the property says they are observed: scripts placed in the outputs of a transaction and
     pushed through the real read_block -> EvaluatedTx -> eval_script path (hook `block`), compared with the Lean model's answer
     for the same block and, model-free, with the direct `script` verdict of the same build (both paths must agree)"""
@@ -106,18 +119,25 @@ def run_via_outputs(ctx, cases, coins_of, family_prefix="out-path:"):
     groups = {}
     for i, (fam, s) in enumerate(cases):
         for coin in coins_of(fam, i):
-            groups.setdefault(coin, []).append((fam, s))
+            # coin-specific idioms and scripts with a published meaning: under every transaction version of the pool
+            for tvx in (TX_VERSIONS if all_contexts(fam) else [None]):
+                groups.setdefault((coin, tvx), []).append((fam, s))
     reqs, meta = [], []
-    for coin, items in groups.items():
+    for (coin, tvx), items in groups.items():
         k = 0
         while k < len(items):
             # up to 12 scripts (or ~200 KB) per transaction
             batch, size = [], 0
             while k < len(items) and len(batch) < 12 and size < 200000:
                 batch.append(items[k]); size += len(items[k][1]); k += 1
-            cb = K.Tx([(b"\0" * 32, 0xffffffff, b"\x01\x01", 0xffffffff)], [(1, b"\x51")])
-            t = K.Tx([(b"\x11" * 32, 0, b"", 0)], [(j, s) for j, (_f, s) in enumerate(batch)])
-            raw = K.Block([cb, t], version=1).enc()
+            # the verdict on an output script is a function of the script and the coin: not of the version or lock time of the
+            # transaction that carries it (1, 2, Namecoin's name-operation version 0x7100, type-tagged and overwintered versions, any
+            # number new in the sources), nor of the block's version or time
+            nb = len(reqs)
+            tv = tvx if tvx is not None else (TX_VERSIONS[nb % len(TX_VERSIONS)] if nb % 3 else 1)
+            cb = K.Tx([(b"\0" * 32, 0xffffffff, b"\x01\x01", 0xffffffff)], [(1, b"\x51")], version=TX_VERSIONS[(nb // 2) % len(TX_VERSIONS)] if nb % 5 == 0 else 1)
+            t = K.Tx([(b"\x11" * 32, 0, b"", 0)], [(j, s) for j, (_f, s) in enumerate(batch)], version=tv, lock=[0, 0, 499999999, 500000000, 0xffffffff][nb % 5])
+            raw = K.Block([cb, t], version=[1, 2, 4, 0x20000000, 0x7fffffff, 0xffffffff][nb % 6] if coin not in K.AUXPOW else [1, 2, 4, K.AUXPOW[coin] - 1][nb % 4], time=[1, 1231006505, 1700000000, 0xffffffff][nb % 4]).enc()
             reqs.append("%s %d %s" % (coin, len(raw), raw.hex()))
             meta.append((coin, batch))
     if not reqs:
@@ -154,7 +174,7 @@ def run_via_outputs(ctx, cases, coins_of, family_prefix="out-path:"):
             sreq = "%s %s" % (ver_of[coin], G.hexs(s))
             if va != vb:
                 ctx.disagree(family_prefix + fam, "block-output %s script %s" % (coin, sreq if len(sreq) < 300 else sreq[:300] + "…(%d bytes)" % len(s)), " ".join(va), " ".join(vb), True,
-                             {"full_request": sreq if len(sreq) < 200000 else None, "via": "block", "coin": coin, "observable": "type+address through read_block/eval_script"})
+                             {"full_request": sreq if len(sreq) < 200000 else None, "via": "block", "coin": coin, "block_request": q if len(q) < 500000 else None, "observable": "type+address through read_block/eval_script"})
             elif tuple(d[:2]) != tuple(va) and d[0] != "PANIC":
                 ctx.disagree(family_prefix + fam + ":paths", "block-output %s script %s" % (coin, sreq if len(sreq) < 300 else sreq[:300] + "…(%d bytes)" % len(s)), "via block: " + " ".join(va), "via eval_from_bytes: " + " ".join(d[:2]), True,
                              {"full_request": sreq if len(sreq) < 200000 else None, "via": "block", "coin": coin, "observable": "the two call paths of the same build disagree"})
@@ -162,6 +182,50 @@ def run_via_outputs(ctx, cases, coins_of, family_prefix="out-path:"):
 
 def replay_via_outputs(ctx, rep):
     d = rep.get("failing_input", rep)
+    if d.get("block_request"):
+        # the very block (transaction and block context included) the disagreement was seen in
+        q = d["block_request"]
+        a, b = ctx.hook("block", [q])[0], ctx.model("block", [q])[0]
+        ctx.mark(("replay-block", q[:80]), True)
+        ctx.families["replay"] += 1
+        if a != b:
+            k = next((i for i, (x, y) in enumerate(zip(a.split(), b.split())) if x != y), 0)
+            ctx.disagree("replay", "block " + q[:300], " ".join(a.split()[max(0, k - 2):k + 3])[:300], " ".join(b.split()[max(0, k - 2):k + 3])[:300], True, dict(d))
+        return
     v, hx = d["full_request"].split()
     s = bytes.fromhex(hx) if hx != "-" else b""
     run_via_outputs(ctx, [("replay", s)], lambda f, i: [d["coin"]])
+
+
+def address_chains(ctx, coins, n_quick=10, n_thorough=80):
+    """the verdicts where a user reads them: whole runs of the three dump callbacks (address column of tx_out / unspent / balances) and
+    of simplestats (type table) over chains whose outputs are the canonical templates, their idiom-prefixed forms and well-known
+    scripts, in arbitrary physical layouts — compared with the whole-program model, and swept over the circumstances of bb.ENV_KINDS
+    (foreign magics in front of the blocks, xor.dat, symlinked files, log levels, ...)"""
+    from . import bb, chain as K, gen_chain as GC, gen_layout as GL
+    r = ctx.sub_rnd("address-chains")
+    by_cb = {}
+    for i in range(ctx.n(n_quick, n_thorough)):
+        coin = coins[i % len(coins)]
+        cb = ["csvdump", "unspentcsvdump", "balances", "simplestats"][(i // len(coins)) % 4]
+        tm = G.canonical_templates(r)
+        pre = G.idiom_prefixes(r)
+        pool = [s for _n, s in tm] + [p + s for _pn, p in pre[:4] for _n, s in tm[:3]] + [s for _n, s in G.WELL_KNOWN]
+        blocks = GC.gen_chain(r, coin, r.randrange(3, 6), max_txs=2, max_io=4, scripts=lambda rr, c: rr.choice(pool), auxpow_mix=False)
+        for b in blocks[1:]:
+            for t in b.txs[1:]:
+                t.version = r.choice(TX_VERSIONS)
+        prev = blocks[0].hash()
+        for b in blocks[1:]:
+            b.prev = prev
+            b.merkle_root = None
+            prev = b.hash()
+        if i % 2:
+            s = GL.layout(r, coin, blocks, callback=cb)
+        else:
+            s = K.Scenario(coin=coin, callback=cb)
+            GC.simple_layout(s, blocks, per_file=r.choice([None, 2]))
+        s.meta = dict(s.meta, address_chain=i)
+        by_cb.setdefault(cb, []).append(s)
+    for cb, scns in by_cb.items():
+        bb.check(ctx, "address-chains:" + cb, scns, bb.comparators_for(cb), env_share=1.0)
